@@ -334,6 +334,9 @@ func (r Wrapper) getClientMetadataFromRequest(ctx context.Context, params oauthP
 			return nil, &oauth.OAuth2Error{Code: oauth.InvalidRequest, Description: "client_metadata and client_metadata_uri are mutually exclusive", InternalError: err}
 		}
 		err = json.Unmarshal([]byte(metadataString), &metadata)
+		if err == nil && metadata == nil {
+			err = errors.New("client_metadata is null")
+		}
 		if err != nil {
 			return nil, &oauth.OAuth2Error{Code: oauth.InvalidRequest, Description: "invalid client_metadata", InternalError: err}
 		}
@@ -353,7 +356,7 @@ func (r Wrapper) getPresentationDefinitionFromRequest(ctx context.Context, param
 		if params.get(oauth.PresentationDefUriParam) != "" {
 			return nil, &oauth.OAuth2Error{Code: oauth.InvalidRequest, Description: "presentation_definition and presentation_definition_uri are mutually exclusive"}
 		}
-		err = json.Unmarshal([]byte(pdString), &presentationDefinition)
+		presentationDefinition, err = pe.ParsePresentationDefinition([]byte(pdString))
 		if err != nil {
 			return nil, &oauth.OAuth2Error{Code: oauth.InvalidRequest, Description: "invalid presentation_definition", InternalError: err}
 		}
